@@ -102,6 +102,7 @@ def explore(case, seed=0, max_sigma=8):
     specs = specs_sx(case)
     n_sets_total = 0
     nt = False
+    live = []          # (sigma, graph, feasible, {choice id: offered sets}) of every scenario, re-observed at the end
     for sigma, inst in adm[:max_sigma]:
         g = g0
         ok = True
@@ -132,6 +133,8 @@ def explore(case, seed=0, max_sigma=8):
         if scenario_ok and not feasible_i:
             return {'fail': {'clause': 'connectable-scenario-reported-infeasible', 'detail': 'sigma %s nodes %s' % (sigma, inst)}, 'tags': tags}
         tags.append('scenario:%s/%s' % ('ok' if scenario_ok else 'unconnectable', 'feasible' if feasible_i else 'infeasible'))
+        first_obs = {}
+        live.append((sigma, g, feasible_i, first_obs))
         for cc in case['conn']:
             node = b.node[cc['id']]
             present = node in g.graph.nodes
@@ -149,6 +152,7 @@ def explore(case, seed=0, max_sigma=8):
             if is_model_error(m):
                 return {'fail': {'clause': 'model-error', 'detail': sx(m), 'no_input': True}}
             model_sets = sorted(sorted(tuple(p) for p in es) for es in m)
+            first_obs[cc['id']] = impl_sets
             n_sets_total += len(model_sets)
             nt = nt or len(model_sets) >= 2
             if impl_sets != model_sets:
@@ -184,6 +188,26 @@ def explore(case, seed=0, max_sigma=8):
                     return {'fail': {'clause': 'applied-connection-edges-differ', 'detail': 'applied %s instance has %s choice node left: %s' % (es, got, node in g2.graph.nodes)}, 'tags': tags}
                 if len(case['conn']) == 1 and not g2.final:
                     return {'fail': {'clause': 'instance-not-final-after-connection', 'detail': 'sigma %s' % (sigma,)}, 'tags': tags}
+    # second pass: the graphs of all scenarios are alive together (node objects are shared between them); what each one
+    # reports must still be what it reported -- and what the model said -- when it was the most recently derived graph
+    for sigma, g, feasible_i, first_obs in live:
+        for cid, sets1 in first_obs.items():
+            node = b.node[cid]
+            try:
+                sets2 = sorted(sorted((b.ident[s], b.ident[t]) for s, t in es) for es in node.iter_conn_edges(g))
+            except Exception as e:
+                return {'fail': {'clause': 'earlier-graph-iter-conn-edges-raises:%s' % type(e).__name__, 'detail': 'sigma %s choice %d: %s' % (sigma, cid, e)}, 'tags': tags}
+            if sets2 != sets1:
+                return {'fail': {'clause': 'earlier-graph-connection-sets-changed', 'detail': 'sigma %s choice %d: %d sets when derived, %d sets after %d other scenario graphs were derived' % (sigma, cid, len(sets1), len(sets2), len(live) - 1)}, 'tags': tags}
+    for sigma, g, feasible_i, first_obs in reversed(live):
+        try:
+            f2 = bool(g.feasible)
+        except Exception as e:
+            return {'fail': {'clause': 'earlier-graph-feasible-raises:%s' % type(e).__name__, 'detail': 'sigma %s: %s' % (sigma, e)}, 'tags': tags}
+        if f2 != feasible_i:
+            return {'fail': {'clause': 'earlier-graph-feasibility-changed', 'detail': 'sigma %s: feasible was %s, is %s after %d other scenario graphs were derived' % (sigma, feasible_i, f2, len(live) - 1)}, 'tags': tags}
+    if len(live) >= 2:
+        tags.append('second-pass=%d' % min(len(live), 9))
     tags.append('sets=%d' % min(n_sets_total, 20))
     return {'impl': {'admissible': len(adm), 'connection_sets': n_sets_total}, 'nontrivial': nt, 'tags': tags, 'queries': []}
 
